@@ -7,13 +7,19 @@ import (
 	"os"
 
 	"verifharness/corr"
+	"verifharness/suites/gen"
+	"verifharness/suites/pool"
 	"verifharness/suites/reader"
+	streamsuite "verifharness/suites/stream"
 	"verifharness/suites/wire"
 )
 
 var suites = map[string]func(*corr.Out){
+	"gen":    gen.Run,
 	"wire":   wire.Run,
+	"pool":   pool.Run,
 	"reader": reader.Run,
+	"stream": streamsuite.Run,
 }
 
 func main() {
